@@ -327,6 +327,145 @@ def continue_elim(text, log, fnq):
     return text
 
 
+RET_RE = re.compile(r'\breturn\b')
+RETBLOCK_RE = re.compile(r'/\*@retblock (\w+) (\w+)\*/\s*\{')
+
+
+def _has_code(text, mask, rx, lo, hi):
+    for mt in rx.finditer(text, lo, hi):
+        if mask[mt.start()]:
+            return True
+    return False
+
+
+def _split_items(text, mask, lo, hi):
+    """Top-level items of the block contents text[lo:hi]: list of (start, end) with end exclusive; a statement ends
+    at its ';' at depth 0, a block-like statement (if/if let/for/while/loop/match/bare block) at the '}' that closes it
+    (after its else-chain) unless it goes on as an expression; the last item may be the tail expression."""
+    items = []
+    k = _skip_ws(text, mask, lo)
+    while k < hi:
+        st = k
+        d = 0
+        j = k
+        end = None
+        head = text[st:st + 12]
+        blocklike = re.match(r"^(if\b|for\b|while\b|loop\b|match\b|unsafe\b|\{|'\w+\s*:)", head) is not None
+        while j < hi:
+            if mask[j]:
+                c = text[j]
+                if c in '([{':
+                    d += 1
+                elif c in ')]}':
+                    d -= 1
+                    if d == 0 and c == '}' and blocklike:
+                        ce = _chain_end(text, mask, j)
+                        nx = _skip_ws(text, mask, ce)
+                        if nx < hi and text[nx] in '.?;':
+                            j = ce if text[nx] != ';' else nx
+                            if text[nx] == ';':
+                                end = nx + 1
+                                break
+                            blocklike = False
+                            continue
+                        end = ce
+                        break
+                elif d == 0 and c == ';':
+                    end = j + 1
+                    break
+            j += 1
+        if end is None:
+            end = hi
+        items.append((st, end))
+        k = _skip_ws(text, mask, end)
+    return items
+
+
+def _ret_elim_block(text, lo, hi, top, done, val, fnq):
+    """contents text[lo:hi] of a block -> new contents (string)"""
+    mask = rs.code_mask(text)
+    items = _split_items(text, mask, lo, hi)
+    out = []
+    for n, (st, en) in enumerate(items):
+        it = text[st:en]
+        if not _has_code(text, mask, RET_RE, st, en):
+            out.append(it)
+            continue
+        m = re.match(r'^return\b\s*(.*?);\s*$', it, re.S)
+        if m and mask[st]:
+            new_it = '%s = %s; %s = true;' % (val, m.group(1).strip() or '()', done)
+        elif re.match(r'^if\b', it):
+            # an if / else chain: every block of the chain is treated in turn (not top: unit-valued)
+            pieces = []
+            pos = st
+            while True:
+                # next block opening at paren depth 0
+                pd = 0
+                b = pos
+                while b < en:
+                    if mask[b]:
+                        c = text[b]
+                        if c in '([':
+                            pd += 1
+                        elif c in ')]':
+                            pd -= 1
+                        elif pd == 0 and c == '{':
+                            break
+                    b += 1
+                if b >= en:
+                    break
+                bc = rs.match_close(text, mask, b)
+                pieces.append(text[pos:b + 1])
+                pieces.append(_ret_elim_block(text, b + 1, bc, False, done, val, fnq))
+                pieces.append('}')
+                pos = bc + 1
+                nx = _skip_ws(text, mask, pos)
+                if not (text.startswith('else', nx) and nx < en):
+                    break
+            pieces.append(text[pos:en])
+            new_it = ''.join(pieces)
+        else:
+            raise GenError('%s: R17: `return` inside a closure body in a place other than an if-chain or a plain statement' % fnq)
+        out.append(new_it)
+        rest_lo = en
+        if n + 1 < len(items):
+            rest = _ret_elim_block(text, items[n + 1][0], hi, top, done, val, fnq)
+            if top:
+                out.append('if %s { %s } else { %s }' % (done, val, rest))
+            else:
+                out.append('if !%s { %s }' % (done, rest))
+        elif top:
+            out.append('%s' % val)
+        return '\n'.join(out)
+    return '\n'.join(out)
+
+
+def return_elim(text, log, fnq):
+    """R17: the body of a closure that a rewrite has inlined as a value block `/*@retblock TYPE DEFAULT*/ { .. }` may
+    contain `return V;` (early exit of the closure).  It is expressed with two locals: `return V;` becomes
+    `val = V; done = true;`, and whatever follows a statement that may have returned runs under `if !done`
+    (the block's value: `if done { val } else { rest }`).  Same control flow; other shapes stop (exit 2)."""
+    cnt = 0
+    while True:
+        mask = rs.code_mask(text)
+        mt = RETBLOCK_RE.search(text)
+        if not mt:
+            break
+        cnt += 1
+        ty, default = mt.group(1), mt.group(2)
+        b = mt.end() - 1
+        bc = rs.match_close(text, rs.code_mask(text), b)
+        if not _has_code(text, rs.code_mask(text), RET_RE, b + 1, bc):
+            text = text[:mt.start()] + '{' + text[b + 1:]
+            continue
+        done, val = 'vx_done%d' % cnt, 'vx_val%d' % cnt
+        body = _ret_elim_block(text, b + 1, bc, True, done, val, fnq)
+        new = '{ let mut %s: bool = false; let mut %s: %s = %s;\n%s\n}' % (done, val, ty, default, body)
+        text = text[:mt.start()] + new + text[bc + 1:]
+        log.append({'fn': fnq, 'rule': 'R17', 'from': 'return inside an inlined closure body', 'to': 'flag %s / value %s' % (done, val), 'count': 1})
+    return text
+
+
 def clause_lines(out, clauses, fnq, kind, indent, default_props, clause_index, loop=None):
     for c in clauses:
         cid = '%s.%s' % (fnq, c.id) if loop is None else '%s.loop%d.%s' % (fnq, loop, c.id)
@@ -358,6 +497,7 @@ def gen_fn(out, unit, f, sf, meta, probe):
     whole = src[sig_start:bclose + 1]
     sig_norm = rs.norm_ws(src[sig_start:(bopen if bopen is not None else bclose)])
     whole = apply_rewrites(whole, f.rewrites, unit.rewrites, meta['rewrites'], f.qual)
+    whole = return_elim(whole, meta['rewrites'], f.qual)
     whole = continue_elim(whole, meta['rewrites'], f.qual)
     if bopen is not None:
         wmask = rs.code_mask(whole)
